@@ -63,6 +63,13 @@ def articulation_points[S](
         return Result(set(), 0, 0, n)
 
     node_set = set(node_list)
+    # Undirected: an edge listed by only one endpoint is still an edge (same as kcore/louvain)
+    adj: dict[S, set[S]] = {v: set() for v in node_list}
+    for v in node_list:
+        for w in neighbors(v):
+            if w in node_set and w != v:
+                adj[v].add(w)
+                adj[w].add(v)
     discovery: dict[S, int] = {}
     low: dict[S, int] = {}
     parent: dict[S, S | None] = {}
@@ -79,10 +86,7 @@ def articulation_points[S](
         low[v] = time[0]
         time[0] += 1
 
-        for w in neighbors(v):
-            if w not in node_set:
-                continue
-
+        for w in adj[v]:
             if w not in discovery:
                 children += 1
                 parent[w] = v
@@ -126,6 +130,13 @@ def bridges[S](
         return Result([], 0, 0, n)
 
     node_set = set(node_list)
+    # Undirected: an edge listed by only one endpoint is still an edge (same as kcore/louvain)
+    adj: dict[S, set[S]] = {v: set() for v in node_list}
+    for v in node_list:
+        for w in neighbors(v):
+            if w in node_set and w != v:
+                adj[v].add(w)
+                adj[w].add(v)
     discovery: dict[S, int] = {}
     low: dict[S, int] = {}
     parent: dict[S, S | None] = {}
@@ -141,10 +152,7 @@ def bridges[S](
         low[v] = time[0]
         time[0] += 1
 
-        for w in neighbors(v):
-            if w not in node_set:
-                continue
-
+        for w in adj[v]:
             if w not in discovery:
                 parent[w] = v
                 dfs(w)
